@@ -36,6 +36,8 @@ NB_EXPR = 'ln + 100'     # the neighbouring well-behaved expression, value 111
 def wrap_expr(e, wrap):
     if wrap == 'plain':
         return e
+    if wrap == 'padded':
+        return ' \t' + e              # leading blanks and tabs: still the same expression
     if wrap == 'raises_exception':
         return '(%s) // 0' % e
     if wrap == 'syntax_error':
@@ -67,9 +69,14 @@ def run_case(case, expected, wd):
     mine = [expr]
     exprs = ([NB_EXPR] if nb == 'ok_before' else []) + mine + ([NB_EXPR] if nb == 'ok_after' else [])
     if site == 'condition':
-        tp['args']['condition'] = ('(%s) == %d' % (expr, val)) if src != 'ERR' else ('(%s) is not None' % expr)
+        bare = expr.strip() if wrap == 'padded' else expr
+        tp['args']['condition'] = ('(%s) == %d' % (bare, val)) if src != 'ERR' else ('(%s) is not None' % bare)
+        if wrap == 'padded':
+            tp['args']['condition'] = ' \t' + tp['args']['condition']
         if nb != 'none':
             tp['watches'] = [NB_EXPR]
+        # the tracepoint has a metric as well: the condition gates every action of the tracepoint
+        tp['metrics'] = [Metric(name='cm', type=MetricType.COUNTER, expression=NB_EXPR)]
     elif site == 'watch':
         tp['watches'] = exprs
     elif site == 'logfield':
@@ -96,6 +103,10 @@ def run_case(case, expected, wd):
             fired = len(snaps) == 1
             if fired != expected['fires']:
                 return 'condition %r: fired=%s expected %s' % (tp['args']['condition'], fired, expected['fires'])
+            nmet = len([c_ for c_ in plugin.calls if c_[0] == 'metric'])
+            if nmet != (1 if expected['fires'] else 0):
+                return 'condition %r (%s): the metric of the tracepoint was reported %d time(s)' % (
+                    tp['args']['condition'], 'holds' if expected['fires'] else 'does not hold', nmet)
             if fired and nb != 'none':
                 w = snaps[0].watches[0]
                 if w.error is not None or snaps[0].var_lookup[w.result.vid].value != '111':
@@ -164,7 +175,7 @@ def run_case(case, expected, wd):
         else:
             if kind == 'OK' and site in ('watch', 'logfield'):
                 return '%s: expression %r must fail but produced value %r' % (site, expr, text)
-            if text in WRONG.get(nc, set()) and wrap == 'plain':
+            if text in WRONG.get(nc, set()) and wrap in ('plain', 'padded'):
                 return '%s: expression %r resolved (%r) although the name is not in the frame scope' % (site, expr, text)
             if site == 'metric' and text != '1':
                 return 'metric: failing expression must report 1, got %r' % (text,)
